@@ -62,13 +62,27 @@ func must(err error) {
 	}
 }
 
-// iterationsTooHigh: the statement exempts password-stretching counts carried by the format; inputs that
-// declare more than 4096 iterations (any small INTEGER above that in the clear structure) are skipped.
-func iterationsTooHigh(b []byte) bool {
-	for _, tl := range rder.Walk(b) {
-		if tl.Tag == 0x02 && tl.Len >= 2 && tl.Len <= 8 {
+// iterationsTooHigh: the statement exempts password-stretching counts carried by the format. An input is skipped only
+// when the decoder stretches a password AND the input declares more than 4096 iterations in the place where the formats
+// carry that count: an INTEGER that directly follows an OCTET STRING (the salt) - PBKDF2-params, PKCS#12 pbeParams and
+// MacData all have that shape. (Until round 12 ANY small INTEGER above 4096 anywhere in the input caused the skip, for
+// every decoder - and the serial numbers of the harness PKI start at 5001, so every input that embedded one of its
+// certificates was skipped unseen; see DESIGN.md, log of check corrections.)
+func iterationsTooHigh(d *decoder, b []byte) bool {
+	if !strings.Contains(d.name, "pwd") && !strings.Contains(d.name, "pkcs12") {
+		return false
+	}
+	tlvs := rder.Walk(b)
+	saltEnds := map[int]bool{}
+	for _, tl := range tlvs {
+		if tl.Tag == 0x04 {
+			saltEnds[tl.Start+tl.HdrLen+tl.Len] = true
+		}
+	}
+	for _, tl := range tlvs {
+		if tl.Tag == 0x02 && tl.Len >= 2 && tl.Len <= 8 && saltEnds[tl.Start] {
 			v := new(big.Int).SetBytes(b[tl.Start+tl.HdrLen : tl.Start+tl.HdrLen+tl.Len])
-			if v.Cmp(big.NewInt(4096)) > 0 && v.BitLen() < 63 {
+			if v.Cmp(big.NewInt(4096)) > 0 && b[tl.Start+tl.HdrLen]&0x80 == 0 {
 				return true
 			}
 		}
@@ -368,7 +382,7 @@ func TestMain(m *testing.M) {
 			R.Require(d.name+"/len_rewrite", d.name+"/tag_swap")
 		}
 	}
-	R.Require("huge_length_sweep", "p12_attr_decoded", "p12_attr_odd", "ber_depth>=1000", "vec_len_sweep", "hello_ext_sweep", "der_value_sweep")
+	R.Require("huge_length_sweep", "p12_attr_decoded", "p12_attr_odd", "ber_depth>=1000", "vec_len_sweep", "hello_ext_sweep", "der_value_sweep", "parameter_size_sweep")
 	R.Assume("inputs that declare more than 4096 key-stretching iterations are skipped and counted as discarded (the statement exempts format-carried stretching)")
 	hx.Main(m, R)
 }
@@ -376,7 +390,7 @@ func TestMain(m *testing.M) {
 const hangLimit = 30 * time.Second
 
 func runOne(t interface{ Fatalf(string, ...any) }, d *decoder, in []byte, kind string) {
-	if iterationsTooHigh(in) {
+	if iterationsTooHigh(d, in) {
 		R.Discard()
 		return
 	}
@@ -797,4 +811,65 @@ func FuzzC18(f *testing.F) {
 		}
 		runOne(t, &decoders[int(idx)%len(decoders)], data, "fuzz")
 	})
+}
+
+// Algorithm PARAMETERS of an otherwise intact message, opened by its rightful recipient: the decoders named "...+use" go
+// on to decrypt or verify, so a parameter block (nonce, IV, tag length, salt, iteration count, wrapped key) of an unusual
+// size is handed to a cipher only AFTER every signature / key-unwrap check has passed. Each short OCTET STRING of each
+// seed is replaced by strings of every length 0..40, and each short INTEGER by every one-byte value and a few long ones;
+// all enclosing lengths are re-encoded.
+func TestC18_ParameterSizes(t *testing.T) {
+	var n int64
+	for i := range decoders {
+		d := &decoders[i]
+		if !d.asn1 || !(strings.Contains(d.name, "+use") || strings.Contains(d.name, "reMAC") || strings.Contains(d.name, "(pwd)")) {
+			continue
+		}
+		for _, seed := range d.seeds {
+			if blk, _ := pem.Decode(seed); blk != nil || len(seed) > 4096 {
+				continue
+			}
+			paramSizes(seed, func(m []byte) {
+				runOne(t, d, m, "parameter_size")
+				n++
+			})
+		}
+		R.Case(true, hx.HashKey("paramsize", d.name), "parameter_size_sweep")
+	}
+	R.Subspace("every OCTET STRING <= 40 bytes x lengths 0..40 and every INTEGER <= 4 bytes x 259 values, of the seeds of the decoders that decrypt or verify after parsing", n, true)
+}
+
+// paramSizes calls emit with every re-encoding of der in which one short primitive string (OCTET STRING or a
+// context-tagged primitive, <= 40 bytes) has another length 0..40, or one short INTEGER another value. Elements that the
+// library writes with the tag octet 0x10 (a SEQUENCE without the constructed bit, as its GCM parameters are) are opened too.
+func paramSizes(der []byte, emit func([]byte)) {
+	for _, tl := range rder.Walk(der) {
+		tl := tl
+		here := func(x rder.TLV, _ []byte) bool { return x.Start == tl.Start && x.Tag == tl.Tag && x.Len == tl.Len }
+		old := der[tl.Start+tl.HdrLen : tl.Start+tl.HdrLen+tl.Len]
+		put := func(c []byte) {
+			if m, ok := gen.DERReplaceWhere(der, here, tl.Tag, func([]byte) []byte { return c }); ok {
+				emit(m)
+			}
+		}
+		switch {
+		case tl.Tag == 0x10 && tl.Len > 0:
+			paramSizes(append([]byte(nil), old...), put)
+		case (tl.Tag == 0x04 || (tl.Tag >= 0x80 && tl.Tag <= 0x9e)) && tl.Len <= 40:
+			for l := 0; l <= 40; l++ {
+				if l != tl.Len {
+					b := make([]byte, l)
+					copy(b, old)
+					put(b)
+				}
+			}
+		case tl.Tag == 0x02 && tl.Len <= 4:
+			for v := 0; v < 256; v++ {
+				put([]byte{byte(v)})
+			}
+			put([]byte{0x7f, 0xff, 0xff, 0xff})
+			put([]byte{0x00, 0xff, 0xff, 0xff, 0xff})
+			put([]byte{0x01, 0x00})
+		}
+	}
 }
